@@ -1591,6 +1591,160 @@ Proof.
   - intros b c0 i0 _ _ IH [_ [_ Hwi]]. cbn [cap capk]. apply IH. exact Hwi.
 Qed.
 
+(* ---- without NullOperator the capability of a flipped operator is EXACTLY the permuted one ---- *)
+Fixpoint nonull (o : op) : Prop :=
+  match o with
+  | Scal _ _ => True
+  | Diag _ _ _ => True
+  | Leaf l cp => is_null A (Leaf l cp) = false
+  | Sum l => (fix go (l : list (op * bool)) : Prop := match l with [] => True | p :: t => nonull (fst p) /\ go t end) l
+  | Chain l => (fix go (l : list op) : Prop := match l with [] => True | a :: t => nonull a /\ go t end) l
+  | Adapter o _ => nonull o
+  | Sandw b c i => nonull b /\ nonull c /\ nonull i
+  end.
+
+Lemma nonull_Chain l : nonull (Chain l) <-> Forall nonull l.
+Proof.
+  cbn [nonull]. induction l as [|p t IH].
+  - split; intros; [constructor|exact I].
+  - split.
+    + intros [H1 H2]. constructor; [exact H1|]. apply IH. exact H2.
+    + intros H. inversion H; subst. split; [assumption|]. apply IH. assumption.
+Qed.
+
+Lemma nonull_not_null o : nonull o -> is_null A o = false.
+Proof. destruct o; cbn [nonull is_null]; intros H; try reflexivity. exact H. Qed.
+
+Lemma nonull_existsb l : Forall nonull l -> existsb (is_null A) l = false.
+Proof.
+  induction 1 as [|a t Ha Ht IH]; [reflexivity|]. cbn [existsb]. rewrite (nonull_not_null a Ha). exact IH.
+Qed.
+
+Lemma nonull_unpack l : Forall nonull l -> Forall nonull (unpack_chain A l).
+Proof.
+  induction 1 as [|a t Ha Ht IH]; [constructor|].
+  change (unpack_chain A (a :: t)) with ((match a with Chain l' => l' | _ => [a] end) ++ unpack_chain A t).
+  apply Forall_app. split; [|exact IH].
+  destruct a; try (constructor; [assumption|constructor]). apply nonull_Chain. exact Ha.
+Qed.
+
+Lemma nonull_collect l : Forall nonull l -> forall f0 f r, collect_chain_scal A l f0 = (f, r) -> Forall nonull r.
+Proof.
+  induction 1 as [|a t Ha Ht IH]; intros f0 f r E; cbn [collect_chain_scal] in E.
+  - inversion E; constructor.
+  - destruct a; try (destruct (collect_chain_scal A t f0) as [f' r'] eqn:E'; inversion E; subst;
+                     constructor; [assumption|eapply IH; eassumption]).
+    destruct (is_real A c).
+    + eapply IH; eassumption.
+    + destruct (collect_chain_scal A t f0) as [f' r'] eqn:E'; inversion E; subst.
+      constructor; [assumption|eapply IH; eassumption].
+Qed.
+
+Lemma nonull_absorb l : Forall nonull l -> forall f r, absorb_scale A l f = Some r -> Forall nonull r.
+Proof.
+  induction 1 as [|a t Ha Ht IH]; intros f r E; [discriminate|]. cbn [absorb_scale] in E.
+  destruct a; try (destruct (absorb_scale A t f) as [r'|] eqn:E'; [|discriminate]; inversion E; subst;
+                   constructor; [assumption|eapply IH; eassumption]).
+  inversion E; subst. constructor; [exact I|assumption].
+Qed.
+
+Lemma nonull_combine ops : forall acc, Forall nonull ops -> Forall nonull acc -> Forall nonull (combine_prod A ops acc).
+Proof.
+  induction ops as [|o t IH]; intros acc Ho Ha.
+  - cbn [combine_prod]. apply Forall_rev. exact Ha.
+  - inversion Ho as [|? ? H1 H2]; subst.
+    assert (Gen : Forall nonull (combine_prod A t (o :: acc))) by (apply IH; [assumption|constructor; assumption]).
+    destruct o; cbn [combine_prod]; try exact Gen.
+    destruct acc as [|[] acc']; try exact Gen.
+    inversion Ha; subst. apply IH; [assumption|constructor; [exact I|assumption]].
+Qed.
+
+Lemma nonull_chain_nonull l : Forall nonull l -> Forall nonull (chain_nonull A l).
+Proof.
+  intros H. unfold chain_nonull. pose proof (nonull_unpack l H) as H1.
+  destruct (collect_chain_scal A (unpack_chain A l) 1) as [fct ops2] eqn:E1.
+  pose proof (nonull_collect _ H1 _ _ _ E1) as H2.
+  assert (Abs : forall p, (if negb (eqb A fct 1)
+       then match absorb_scale A ops2 fct with Some r => (1, r) | None => (fct, ops2) end
+       else (fct, ops2)) = p -> Forall nonull (snd p)).
+  { intros p <-. destruct (negb (eqb A fct 1)); [|exact H2].
+    destruct (absorb_scale A ops2 fct) as [r|] eqn:E2; [|exact H2]. cbn [snd]. exact (nonull_absorb _ H2 _ _ E2). }
+  destruct (if negb (eqb A fct 1)
+       then match absorb_scale A ops2 fct with Some r => (1, r) | None => (fct, ops2) end
+       else (fct, ops2)) as [fct' ops3] eqn:E3.
+  pose proof (Abs _ eq_refl) as H3. cbn [snd] in H3.
+  apply nonull_combine; [|constructor].
+  destruct (negb (eqb A fct' 1) || match ops3 with [] => true | _ :: _ => false end); [|exact H3].
+  apply Forall_app. split; [exact H3|constructor; [exact I|constructor]].
+Qed.
+
+Lemma nonull_mk_chain l : Forall nonull l -> nonull (mk_chain A l).
+Proof.
+  intros H.
+  assert (G : Forall nonull (chain_general A l)).
+  { unfold chain_general. rewrite (nonull_existsb _ (nonull_unpack l H)). apply nonull_chain_nonull. exact H. }
+  assert (S : Forall nonull (chain_simplify A l)).
+  { destruct l as [|a [|b [|c t]]]; cbn [chain_simplify]; try exact G; try exact H.
+    inversion H as [|? ? Ha Hb]; subst.
+    destruct (isIdentity A a); [exact Hb|]. destruct (isIdentity A b); [constructor; [exact Ha|constructor]|exact G]. }
+  unfold mk_chain. destruct (chain_simplify A l) as [|o [|o2 t]].
+  - exact I.
+  - inversion S; subst. assumption.
+  - apply nonull_Chain. exact S.
+Qed.
+
+Lemma nonull_flip : forall o t, nonull o -> nonull (flip A t o).
+Proof.
+  intros o t. revert o. apply (op_ind' (fun o => nonull o -> nonull (flip A t o)));
+    try (intros; destruct (Z.eqb t 0) eqn:E0;
+         [apply Z.eqb_eq in E0; subst t; rewrite flip_0; assumption|cbn [flip]; rewrite E0; cbn [nonull]; assumption]).
+  - (* Chain *) intros l IHl Hn. destruct (Z.eqb t 0) eqn:E0.
+    { apply Z.eqb_eq in E0; subst t; rewrite flip_0; assumption. }
+    apply nonull_Chain in Hn. cbn [flip]. rewrite E0.
+    assert (M : Forall nonull (map (flip A t) l)).
+    { clear -IHl Hn. induction IHl as [|a r Ha Hr IH]; cbn [map]; [constructor|].
+      inversion Hn; subst. constructor; [apply Ha; assumption|apply IH; assumption]. }
+    destruct (Z.eqb t 3); apply nonull_mk_chain; [exact M|apply Forall_rev; exact M].
+  - (* Adapter *) intros o tr IH Hn. cbn [nonull] in Hn. destruct (Z.eqb t 0) eqn:E0.
+    { apply Z.eqb_eq in E0; subst t; rewrite flip_0; exact Hn. }
+    cbn [flip]. rewrite E0. destruct (Z.eqb (Z.lxor t tr) 0); exact Hn.
+Qed.
+
+Definition flip_exact (o : op) : Prop :=
+  wf o -> nonull o -> forall t k, kvalid t -> kvalid k -> capk (flip A t o) k = capk o (Z.lxor k t).
+
+Lemma flip_caps_exact : forall o, flip_exact o.
+Proof.
+  apply op_ind'; unfold flip_exact;
+    try (intros; destruct (Z.eqb t 0) eqn:E0;
+         [apply Z.eqb_eq in E0; subst t; rewrite flip_0, Z.lxor_0_r; reflexivity|cbn [flip]; rewrite E0; reflexivity]).
+  - (* Chain *) intros l IHl Hw Hn t k Ht Hk. destruct (Z.eqb t 0) eqn:E0.
+    { apply Z.eqb_eq in E0; subst t; rewrite flip_0, Z.lxor_0_r; reflexivity. }
+    apply wf_Chain in Hw. apply nonull_Chain in Hn.
+    assert (Cm : allcap (map (flip A t) l) k = allcap l (Z.lxor k t)).
+    { clear -IHl Hw Hn Ht Hk. induction IHl as [|a r Ha Hr IH]; [reflexivity|]. inversion Hw; subst. inversion Hn; subst.
+      cbn [map allcap forallb]. rewrite (Ha H1 H3 t k Ht Hk). f_equal. apply IH; assumption. }
+    assert (M : Forall nonull (map (flip A t) l)).
+    { clear -Hn. induction Hn as [|a r Ha Hr IH]; cbn [map]; constructor; [apply nonull_flip; assumption|assumption]. }
+    cbn [flip]. rewrite E0. rewrite capk_Chain. destruct (Z.eqb t 3).
+    + rewrite capk_mk_chain_eq; [exact Cm|]. apply nonull_existsb, nonull_unpack. exact M.
+    + rewrite capk_mk_chain_eq; [rewrite allcap_rev; exact Cm|]. apply nonull_existsb, nonull_unpack, Forall_rev. exact M.
+  - (* Adapter *) intros o tr IH Hw Hn t k Ht Hk. cbn [wf] in Hw. destruct Hw as [Hwo Htr]. destruct (Z.eqb t 0) eqn:E0.
+    { apply Z.eqb_eq in E0; subst t; rewrite flip_0, Z.lxor_0_r; reflexivity. }
+    cbn [flip]. rewrite E0. destruct (Z.eqb (Z.lxor t tr) 0) eqn:En.
+    + apply Z.eqb_eq in En. apply Z.lxor_eq in En. subst tr. cbn [capk].
+      rewrite Z.lxor_assoc, Z.lxor_nilpotent, Z.lxor_0_r. reflexivity.
+    + cbn [capk]. rewrite lxor_valid_assoc. reflexivity.
+Qed.
+
+Lemma flip_caps_exact_full o t : wf o -> nonull o -> kvalid t -> forall k, kvalid k ->
+  Z.testbit (cap A (flip A t o)) k = Z.testbit (cap A o) (Z.lxor k t).
+Proof.
+  intros Hw Hn Ht k Hk. destruct (flip_sound o Hw t 0%Z Ht kvalid_0) as [W _].
+  destruct (capk_spec _ W) as [_ B1]. destruct (capk_spec _ Hw) as [_ B2].
+  rewrite (B1 k Hk), (B2 _ (kvalid_xor _ _ Hk Ht)). apply flip_caps_exact; assumption.
+Qed.
+
 (* ---- the statements exported to Props.v ---- *)
 Lemma build_sound_full e : wfe e -> forall k, kvalid k -> advk e k = true ->
   Z.testbit (cap A (build A e)) k = true /\
